@@ -130,16 +130,22 @@ func (s *vSess) settle() {
 		}
 		return fmt.Sprint(runtime.NumGoroutine(), a, b, done, len(s.cli.impl.peek()), len(s.srv.impl.peek()))
 	}
-	last, same := "", 0
+	last, same, need := "", 0, 8
 	deadline := time.Now().Add(2 * time.Second)
-	for same < 8 && time.Now().Before(deadline) {
+	for same < need && time.Now().Before(deadline) {
 		cur := snap()
 		if cur == last {
 			same++
 		} else {
 			same, last = 0, cur
 		}
+		t0 := time.Now()
 		time.Sleep(250 * time.Microsecond)
+		if time.Since(t0) > 2*time.Millisecond && need < 48 {
+			// the machine is busy: a goroutine which has something to do may be waiting for a processor, so
+			// "nothing has changed for a moment" needs a longer moment
+			need = 48
+		}
 	}
 }
 
@@ -233,6 +239,27 @@ func (s *vSess) doCall() {
 	}()
 	s.calls = append(s.calls, c)
 	s.settle()
+	if sent {
+		// the request of a call whose write succeeds does appear: wait for it rather than for quiet
+		// (on a busy machine the caller may not have run yet when everything looks quiet)
+		end := time.Now().Add(3 * time.Second)
+		for time.Now().Before(end) {
+			s.wmu.Lock()
+			n := len(*q)
+			s.wmu.Unlock()
+			if n > before {
+				break
+			}
+			select {
+			case err := <-c.done:
+				c.done <- err // the call ended without writing (it was refused): nothing to wait for
+				end = time.Now()
+			default:
+				time.Sleep(200 * time.Microsecond)
+			}
+		}
+		s.settle()
+	}
 	tr.mu.Lock()
 	tr.failWrite = !s.up
 	tr.mu.Unlock()
